@@ -4,7 +4,7 @@ import json, os, shutil, sys
 P, I, caught, ran = sys.argv[1:5]
 pfx = os.environ.get("SEEDPFX", "seed")
 src = f"/tmp/{pfx}-{P}-out/{I}"
-dst = f"/verif/seeded/{P}-{I}" if pfx == "seed" else f"/verif/seeded/{P}-r2-{I}"
+dst = f"/verif/seeded/{P}-{I}" if pfx == "seed" else f"/verif/seeded/{P}-r{pfx[4:]}-{I}"
 os.makedirs(dst, exist_ok=True)
 shutil.copy(f"{src}/patch.diff", f"{dst}/patch.diff")
 shutil.copy(f"{src}/demo.py", f"{dst}/demo.py")
